@@ -5,6 +5,7 @@
 #include <jsoncons_ext/ubjson/ubjson.hpp>
 #include <jsoncons_ext/bson/bson.hpp>
 #include <sstream>
+#include <cstring>
 using namespace jvh;
 using jsoncons::json;
 using jsoncons::ojson;
@@ -279,6 +280,19 @@ static std::string run(const toks_t& t)
     throw bad_op{};
 }
 
+// half <4 hex digits>: the double a binary16 pattern denotes, as the library computes it (binary::decode_half, and as<double>() of a
+// value holding the half, decode_cbor<double> of the item f9 hh ll). binary::encode_half is not judged: nothing in the library calls it.
+static std::string half_op(const toks_t& t)
+{
+    uint16_t h = static_cast<uint16_t>(std::strtoul(t.at(2).c_str(), nullptr, 16));
+    auto bits = [](double d) { if (d != d) return std::string("nan"); uint64_t u; std::memcpy(&u, &d, 8); char buf[32]; std::snprintf(buf, sizeof buf, "d%016llx", (unsigned long long)u); return std::string(buf); };
+    double d1 = jc::binary::decode_half(h);
+    double d2 = json(jc::half_arg, h).as<double>();
+    std::vector<uint8_t> v{0xf9, static_cast<uint8_t>(h >> 8), static_cast<uint8_t>(h & 0xff)};
+    double d3 = jc::cbor::decode_cbor<double>(v);
+    return "ok " + bits(d1) + " " + bits(d2) + " " + bits(d3);
+}
+
 template <class F1, class F2>
 static std::string trans(const toks_t& t)
 {
@@ -313,6 +327,7 @@ static std::string trans1(const toks_t& t)
 std::string jvh::handle(const toks_t& t)
 {
     if (t.size() >= 3 && t[0] == "bin" && t[1] == "jsonev") return json_events(t);
+    if (t.size() == 3 && t[0] == "bin" && t[1] == "half") return half_op(t);
     if (t.size() >= 5 && t[0] == "bin" && t[1] == "trans")
     {
         const std::string& f1 = t[2];
